@@ -27,6 +27,7 @@ import (
 	"go/types"
 	"os"
 	"path/filepath"
+	"sort"
 	"strconv"
 	"strings"
 )
@@ -92,10 +93,20 @@ var clauseKeywords = map[string]bool{"nilable": true, "pure": true, "defines": t
 	"inline": true, "trusted": true, "nilrecv": true, "maypanic": true, "label": true, "replay": true, "topensures": true}
 
 func (e *Engine) loadContracts(dir string, pkg *types.Package) error {
-	path := filepath.Join(dir, "verif_contracts.go")
+	paths, _ := filepath.Glob(filepath.Join(dir, "verif_contracts*.go"))
+	sort.Strings(paths)
+	for _, p := range paths {
+		if err := e.loadContractFile(p, pkg); err != nil {
+			return err
+		}
+	}
+	return nil
+}
+
+func (e *Engine) loadContractFile(path string, pkg *types.Package) error {
 	data, err := os.ReadFile(path)
 	if err != nil {
-		return nil // no contracts for this package
+		return nil
 	}
 	e.contractFiles = append(e.contractFiles, path)
 	var cur *Contract
